@@ -1,8 +1,105 @@
-(* C01 — property theorems (statements only; proofs live in Proofs.v). *)
+(* C01 — property theorems (statements only; proofs live in Proofs.v).
+   plays prog pcs  :=  the unrolled leaves of the program match the pieces one to one (same duration, same channels,
+                       same samples on the closed piece interval), the durations agree, and for every channel of the
+                       pulse and every t in [0, total) the program plays  at_ pcs c t  (half-open junctions). *)
 From Coq Require Import ZArith QArith List Bool.
 Require Import QV.C01.Model QV.C01.Spec QV.C01.Proofs.
 Import ListNotations.
+Open Scope Q_scope.
 
-Theorem C01_placeholder : forall c t, at_ [] c t = None.
-Proof. exact at_nil. Qed.
-Print Assumptions C01_placeholder.
+(* ---- the full property (kept as definitions: what is still open is visible and type-checked) ---- *)
+Definition C01_denotes_statement : Prop :=
+  forall p env cm r, guard_C01_par_order false p = true ->   (* guard of known finding (ii) only *)
+    create_program p env cm None = Ok r ->
+    exists pcs, denote_top p env cm = Ok pcs /\
+                match r with None => pcs = [] | Some prog => plays prog pcs end.
+Definition C01_sampling_statement : Prop :=
+  forall p env cm prog c t, create_program p env cm None = Ok (Some prog) ->
+    0 <= t -> t < loop_dur prog -> cmem c (loop_chans prog) = true ->
+    oeq (sampled prog c t) (play prog c t).
+Definition C01_errors_statement : Prop :=
+  forall p env cm e, create_program p env cm None = Err e -> exists e', denote_top p env cm = Err e'.
+
+(* ---- proved: the core fragment, no hypothesis about the model left ---- *)
+(* single-channel constants composed by sequence, repetition, for-loop (any range), parameter/channel mapping
+   (incl. dropped channels) and time reversal, any nesting, any parameters *)
+Theorem C01_denotes_core : forall p env cm r, core p = true ->
+  create_program p env cm None = Ok r ->
+  exists pcs, denote_top p env cm = Ok pcs /\
+              match r with None => pcs = [] | Some prog => plays prog pcs end.
+Proof.
+  intros p env cm r Hc. destruct (core_ok p Hc) as (A & B & C).
+  apply (create_program_denote (fun gt => gt = None)); auto.
+Qed.
+Print Assumptions C01_denotes_core.
+
+Example C01_core_nonvacuous :
+  let p := PFor 1%N (EC 0) (EV 2%N) (EC 1)
+             (PSeq [PMap [(3%N, EMul (EV 1%N) (EC (1 # 2)))] [(ChS 2, Some (ChS 1))]
+                      (PRev (PRep (EC 2) (PAtom (AConst (EC (3 # 2)) [(ChS 2, EAdd (EV 3%N) (EC 1))]))));
+                    PAtom (AConst (EV 1%N) [(ChS 1, EV 1%N)])]) in
+  core p = true /\
+  exists prog, create_program p [(2%N, 3 # 1)] [(ChS 1, Some (ChI 0))] None = Ok (Some prog) /\
+               Qeq_bool (loop_dur prog) 12 = true.
+Proof. split; [reflexivity|]. eexists. split; vm_compute; reflexivity. Qed.
+
+(* ---- proved: all composite node kinds, relative to the atomic obligation ---- *)
+(* `atoms_ok` = for every atom of the tree, build_waveform followed by the atomic emission (global transformation,
+   constant short-cut) plays the atom's piece; the guard allows at most one transformation-creating node (parallel
+   channel / scalar arithmetic) on a path from the root (this excludes the known finding (ii) and, for now, nested
+   arithmetic whose composition lemma is not proved) *)
+Theorem C01_denotes_partial : forall p env cm r,
+  atoms_ok (fun _ => True) p -> guard_single_trafo false p = true ->
+  create_program p env cm None = Ok r ->
+  exists pcs, denote_top p env cm = Ok pcs /\
+              match r with None => pcs = [] | Some prog => plays prog pcs end.
+Proof.
+  intros p env cm r Hok Hg. apply (create_program_denote (fun _ => True)); auto.
+Qed.
+Print Assumptions C01_denotes_partial.
+
+Example C01_partial_hypothesis_satisfiable :
+  atoms_ok (fun _ => True) (PRev (PSeq [PAtom (AConst (EC 0) [(ChS 1, EC 1)])])).
+Proof. simpl. split; [apply atom_ok_zero_const|exact I]. Qed.
+
+(* the induction behind both theorems, for any builder position and any enclosing transformation *)
+Theorem C01_compositional : forall (G : option trafo -> Prop) p, atoms_ok G p ->
+  ((forall tr, G (Some tr)) \/ no_trafo p = true) -> forall s cm gt cs, G gt ->
+  guard_single_trafo (is_some gt) p = true -> cp p s cm gt = Ok cs ->
+  exists pcs, denote p (lookup s) cm = Ok pcs /\ Forall2 leaf_matches (flatten_list cs) (map (ptr gt) pcs).
+Proof. exact cp_denote. Qed.
+Print Assumptions C01_compositional.
+
+(* time reversal of a leaf waveform plays the mirrored piece (closed interval) *)
+Theorem C01_leaf_reversal : forall w q, leaf_matches w q -> leaf_matches (wreversed w) (mirror q).
+Proof. exact leaf_rev. Qed.
+Print Assumptions C01_leaf_reversal.
+
+(* half-open junctions: matching leaves play what the pieces denote *)
+Theorem C01_junctions : forall ws pcs, Forall2 leaf_matches ws pcs ->
+  forall c t, Forall (fun p => cmem c (pchans p) = true) pcs ->
+  0 <= t -> t < total pcs -> oeq (play_leaves ws c t) (at_ pcs c t).
+Proof. exact play_at. Qed.
+Print Assumptions C01_junctions.
+
+(* ---- refuted on the unchanged code: known finding (ii), witness (ConstantPT(1,{A:1/2}) || B=1) * 2 ---- *)
+Theorem C01_denotes_refuted :
+  exists p env cm prog pcs c t,
+    create_program p env cm None = Ok (Some prog) /\ denote_top p env cm = Ok pcs /\
+    0 <= t /\ t < total pcs /\ ~ oeq (play prog c t) (at_ pcs c t) /\ guard_single_trafo false p = false.
+Proof.
+  destruct par_order_refuted as (prog & pcs & H1 & H2 & H3 & H4 & H5 & H6).
+  exists witness_par_order, [], [], prog, pcs, (ChS 2), 0.
+  repeat split; auto.
+  - apply Qle_refl.
+  - apply Qeq_bool_iff in H3. rewrite H3. reflexivity.
+  - rewrite H4, H5. simpl. intro E. discriminate E.
+Qed.
+Print Assumptions C01_denotes_refuted.
+
+Example C01_guard_nonvacuous :
+  guard_single_trafo false
+    (PSeq [PArith false SSub (inl (EC 2)) (PRev (PAtom (AConst (EC 1) [(ChI 0, EC (5 # 4)); (ChS 1, EV 1%N)])));
+           PPar (PRep (EC 2) (PAtom (ATable [(ChI 0, [(EC 0, EC 1, Hold); (EC 1, EC 2, Linear)])])))
+                [(ChS 1, EC 3)]]) = true.
+Proof. reflexivity. Qed.
